@@ -75,6 +75,7 @@ def write(prop, tier, seed, cfg, results, kani_res, violations, known_hits, unde
             undecided=undecided,
             known_findings=[dict(obligation=f["id"], text=t) for f, t in known_hits],
             failures_attributed_to_other_properties=[f["id"] for f in other],
+            failures_not_reproduced_when_the_function_is_verified_alone=[x for u in units for x in getattr(results[u], "unconfirmed", [])],
             exhaustive=False,
             thorough=extras or {},
         ),
